@@ -99,4 +99,15 @@ def apply (w : List Inst) : Op → List Inst
 
 def run (w : List Inst) (ops : List Op) : List Inst := ops.foldl apply w
 
+/-- does the call return?  A `run_model` whose model is still `running` when the fuel is used up does not: Python would loop
+    on, the model's `apply` leaves the world as it was — a reading no statement about histories may rely on -/
+def Op.returns (w : List Inst) : Op → Bool
+  | .run i fuel => match w[i]? with | some x => (runModel fuel x).isSome | none => true
+  | _ => true
+
+/-- a history every call of which returns -/
+def allReturn : List Inst → List Op → Bool
+  | _, [] => true
+  | w, op :: ops => op.returns w && allReturn (apply w op) ops
+
 end Mesa.Steps
